@@ -291,6 +291,11 @@ func main() {
 		cmdReplay(os.Args[2:])
 	case "selftest":
 		cmdSelftest(os.Args[2:])
+	case "warm":
+		// build everything once so that the compiler caches are hot (setup_cmd)
+		b := prepare("/repo", true)
+		b.cleanup()
+		fmt.Println("warm: instrumented build of the worker (plain and -race) succeeded")
 	default:
 		fmt.Println("unknown command", os.Args[1])
 		os.Exit(2)
